@@ -82,3 +82,10 @@ declare_class(
     "FastaIndex",
     fields={"fasta_fileandle": TRef("FastaFH"), "buffer_size": INT, "index": TDict(STR, TRef("FastaInfo"))},
 )
+# binary output stream of FastaStream: ghost column of the current line, residues written for the
+# current record, and the line length the writes are checked against
+declare_class("BinOut", fields={"g_col": INT, "g_total": INT, "g_L": INT})
+declare_class(
+    "FastaStream",
+    fields={"out": TRef("BinOut"), "index": TRef("FastaIndex"), "line_length": INT, "gap_character": TTuple([INT, INT, INT])},
+)
